@@ -50,8 +50,12 @@ fn exact_newton(f: fn(f64) -> f64, df: fn(f64) -> f64, x0: f64, tol: f64) -> (Ve
     (xs, None, maxstep)
 }
 
+thread_local! {
+    /// a guess given directly (the tiny-guess lattice) instead of root + t rho
+    static X0_OVERRIDE: Cell<Option<f64>> = Cell::new(None);
+}
 fn scalar_case(fm: &Fam, t: f64, tol: f64, max_iter: usize, delta: f64, acc: &mut Acc) -> Result<(), String> {
-    let x0 = fm.root + t * fm.rho;
+    let x0 = X0_OVERRIDE.with(|o| o.get()).unwrap_or(fm.root + t * fm.rho);
     let (xs, k_exact, maxstep) = exact_newton(fm.f, fm.df, x0, tol);
     let k_exact = k_exact.ok_or_else(|| "MACHINERY: the reference Newton iteration did not converge inside the basin".to_string())?;
     let calls = Cell::new(0usize);
@@ -1017,6 +1021,49 @@ fn main() {
             }
         },
     );
+    // TINY non-zero guesses (and -0.0) for functions whose root is of order one and whose basin contains 0: a difference step scaled by
+    // |x| without a floor vanishes there (f(x + h) == f(x - h), zero slope, Err(NaN) from inside the basin)
+    {
+        let fidx = [0usize, 5, 6, 8, 10];
+        let guesses = [1e-8, -1e-8, 1e-10, 1e-12, -1e-20, 1e-100, 1e-300, 5e-324, -0.0, 3e-9];
+        let per = (guesses.len() * 2 * 2) as u64;
+        ctx.lattice(
+            "scalar real, tiny guesses: 5 families with 0 inside the basin x guesses {+-1e-8,1e-10,1e-12,-1e-20,1e-100,1e-300,5e-324,-0.0,3e-9} x tol {1e-8,1e-12} x max_iter {12,50}",
+            fidx.len() as u64 * per,
+            |idx| format!("{}", idx),
+            |idx, acc| {
+                let fs = fams();
+                let f = &fs[fidx[(idx / per) as usize]];
+                let mut r = idx % per;
+                let it = [12usize, 50][(r % 2) as usize];
+                r /= 2;
+                let tol = [1e-8, 1e-12][(r % 2) as usize];
+                r /= 2;
+                let g = guesses[r as usize];
+                acc.nontriv("tiny non-zero guess");
+                let mut local = Acc::new("t");
+                X0_OVERRIDE.with(|o| o.set(Some(g)));
+                let res = catch(|| scalar_case(f, 0.0, tol, it, 1e-8, &mut local));
+                X0_OVERRIDE.with(|o| o.set(None));
+                for (k, v) in std::mem::take(&mut local.hits) {
+                    *acc.hits.entry(k).or_insert(0) += v;
+                }
+                acc.merge_worst(local);
+                let key = || format!("{} guess={:e} tol={:e} max_iter={}", f.name, g, tol, it);
+                match res {
+                    Ok(Ok(())) => {}
+                    Ok(Err(e)) => {
+                        if e.starts_with("MACHINERY") {
+                            acc.machinery(e)
+                        } else {
+                            acc.fail(idx, key(), e)
+                        }
+                    }
+                    Err(p) => acc.fail(idx, key(), format!("unexpected panic: {}", p)),
+                }
+            },
+        );
+    }
     let ncf = cfams().len() as u64;
     let perc = (9 * TOLS.len() * ITERS.len()) as u64;
     ctx.lattice(
